@@ -240,7 +240,18 @@ class Gen:
         if k == "tuple":
             return tuple(self.value(a, depth - 1) for a in t[1])
         if k == "dict":
-            return {}
+            # a plain `Dict` hint (ProtocolParamUpdate.cost_models): the decoded map is handed through as it is, so whatever
+            # framing a value has must survive — cost models as definite and as INDEFINITE-length arrays, empty ones, a few
+            # hundred entries now and then
+            if rng.random() < 0.25:
+                return {}
+            from pycardano.serialization import IndefiniteList
+            out = {}
+            for lang in rng.sample([0, 1, 2], rng.randint(1, 3)):
+                n = rng.choice([0, 1, 3, 23, 24, 25, 166]) if rng.random() < 0.7 else rng.randint(0, 300)
+                xs = [rng.choice(INTS[:8]) if rng.random() < 0.3 else rng.randint(-1000, 10**7) for _ in range(n)]
+                out[lang] = IndefiniteList(xs) if rng.random() < 0.5 else xs
+            return out
         if k == "named" and " | " in t[1]:
             # a PEP 604 union (`X | None`): pycardano's restorer does not understand it (no `__origin__`), the translator renders
             # it as an unknown named type; values are generated from its alternatives so that the failure becomes concrete
